@@ -712,6 +712,8 @@ def check_C03(res, tier, seed):
 
 def check_C04(res, tier, seed):
     tv_part(res, ["optimise"], n(tier, 400, 4000), seed, tier, "optimise", min_events={"Callback": 30})
+    # objectives that straddle zero, mostly maximised, as views with negative scale / offsets
+    tv_part(res, ["optimise2"], n(tier, 400, 4000), seed, tier, "optimise2", min_events={"Callback": 100})
 
 
 def check_C05(res, tier, seed):
@@ -764,6 +766,9 @@ def check_C09(res, tier, seed):
     # several reified constraints over one literal (interaction of the wrapped propagators)
     tv_part(res, ["reif2"], n(tier, 250, 8000), seed, tier, "reif2", min_events={"IterSolution": 200},
             adopt=adopt_for("C09"))
+    # half-reified cumulative under all 144 option combinations, literal decided after the start times
+    tv_part(res, ["cumulative3"], n(tier, 288, 2880), seed + 9, tier, "cumulative3",
+            min_events={"IterSolution": 200}, adopt=adopt_for("C09"))
 
 
 def check_C07(res, tier, seed):
